@@ -1080,6 +1080,27 @@ func RLockAcquire(m *LockModel) Mode {
 	return ModeReal
 }
 
+// RLockTry is LockTry for the read side: it fails while the lock is write
+// held or a writer is waiting for the readers.
+//
+//go:norace
+func RLockTry(m *LockModel) (Mode, bool) {
+	r := run
+	if r == nil {
+		return ModePlain, false
+	}
+	m.fresh(r)
+	if r.aborting {
+		return ModeTry, false
+	}
+	r.point("tryrlock", 0)
+	if m.locked || r.writerPending(m) {
+		return ModeSkip, false
+	}
+	m.readers++
+	return ModeReal, true
+}
+
 //go:norace
 func RLockNoteTry(m *LockModel, ok bool) {
 	if ok {
